@@ -439,7 +439,7 @@ def coq_ty(name, dims=()):
         p = coq_pty(name)
         base = "(TPrim %s)" % p if p else '(TStruct "%s"%%string)' % name
     if dims:
-        return "(TArr %s [%s])" % (base, "; ".join(str(d) for d in dims))
+        return "(TArr %s [%s])" % (base, "; ".join("%d%%nat" % d for d in dims))
     return base
 
 
